@@ -502,8 +502,53 @@ def recorded_after_growth(ctx, dist):
     return n
 
 
+def oaep_named_is_applied(ctx, dist):
+    """RSA-OAEP, RSA-OAEP-224/256/384/512: the encrypted_key jose produces opens under EXACTLY the named variant (python
+    RSAES-OAEP, label hash = MGF1 hash, RFC 7518 4.3), and a key wrapped outside under the named variant is unwrapped by jose"""
+    import hashlib
+    import jwsgen as G
+    import pyrsa
+    rep = ctx["rep"]
+    bdir = ctx["bdir"]
+    rk = G.standard_keys(bdir).get("RSA2048")
+    if not rk:
+        return 0
+    ki = {m: int.from_bytes(G.unb64(rk[m]), "big") for m in ("n", "e", "d")}
+    J = G.dumps
+    n = 0
+    for alg, hn in (("RSA-OAEP", "sha1"), ("RSA-OAEP-224", "sha224"), ("RSA-OAEP-256", "sha256"), ("RSA-OAEP-384", "sha384"), ("RSA-OAEP-512", "sha512")):
+        for src in ("caller", "key"):
+            key = G.pub_of(rk) if src == "caller" else dict(G.pub_of(rk), alg=alg)
+            tm = {"protected": {"alg": alg, "enc": "A128GCM"}} if src == "caller" else {"protected": {"enc": "A128GCM"}}
+            o = G.harness(bdir, ["jweenc\t%s\t-\t%s\t%s" % (J(tm), J(key), b"oaep".hex())])[0]
+            n += 1
+            if not o.startswith("{"):
+                continue       # an algorithm this build does not offer
+            tok = json.loads(o)
+            hdr = dict(tok.get("header") or {})
+            hdr.update(json.loads(G.unb64(tok["protected"])))
+            cek = pyrsa.oaep_decrypt(ki, hn, G.unb64(tok["encrypted_key"]))
+            if hdr.get("alg") != alg or cek is None or len(cek) != 16:
+                others = [h2 for h2 in ("sha1", "sha224", "sha256", "sha384", "sha512") if h2 != hn and pyrsa.oaep_decrypt(ki, h2, G.unb64(tok["encrypted_key"])) is not None]
+                rep.violation("oaep-applied-differs-from-named:" + alg, "the result names %r (algorithm from the %s) but its encrypted_key does not open as RSAES-OAEP with %s for label and MGF1%s"
+                              % (hdr.get("alg"), src, hn, (" (it opens with %s)" % others[0]) if others else " (nor with any single hash: label and mask hashes differ)"), {"token": o[:900]})
+        # consumer: a content key wrapped outside under the named variant
+        o = G.harness(bdir, ["jweenc\t%s\t-\t%s\t%s" % (J({"protected": {"alg": alg, "enc": "A128GCM"}}), J(G.pub_of(rk)), b"oaep".hex())])[0]
+        if o.startswith("{"):
+            tok = json.loads(o)
+            cek = b"0123456789abcdef"
+            tok["encrypted_key"] = G.b64(pyrsa.oaep_encrypt(ki, hn, cek))
+            u = G.harness(bdir, ["jweunw\t%s\t-\t%s" % (J(tok), J(rk))])[0]
+            n += 1
+            if not u.startswith("{") or json.loads(u).get("k") != G.b64(cek):
+                rep.violation("oaep-consumer-differs-from-named:" + alg, "a content key wrapped outside the library as RSAES-OAEP with %s (label and MGF1) under the header alg %s is not unwrapped by jose: %s" % (hn, alg, u[:60]),
+                              {"token": J(tok)[:900]})
+    dist["RSA-OAEP variants: named = applied (python RSAES-OAEP both directions)"] = n
+    return n
+
+
 def correspond(ctx):
-    ncf = conflicting_parameters(ctx, collections.Counter()) + zip_placement(ctx, collections.Counter()) + recorded_after_growth(ctx, collections.Counter())
+    ncf = oaep_named_is_applied(ctx, collections.Counter()) + conflicting_parameters(ctx, collections.Counter()) + zip_placement(ctx, collections.Counter()) + recorded_after_growth(ctx, collections.Counter())
     cases, dist = gen(ctx["tier"], ctx["seed"], ctx["bdir"])
     dist["conflicting algorithm parameters (apu/apv/p2c/alg/enc in two headers), end to end"] = ncf
     # drop wrapalg cases whose key cannot be used with the algorithm the header / the suggestion names:
